@@ -41,6 +41,10 @@ class Contract(object):
         self.ghost_pre = ghost_pre
 
 
+class NoneBase(OutOfReach):
+    """a location expression dereferences a value that is concretely None: the location does not exist"""
+
+
 class VerifyResult(object):
     def __init__(self, key):
         self.key = key
@@ -132,6 +136,8 @@ class Verifier(ExprMixin, CallMixin, BuiltinMixin, StmtMixin, Executor):
         base = self.sev(node.value, st)
         if base.is_py and isinstance(base.py, (_types.ModuleType, type)):
             return mk(getattr(base.py, node.attr))
+        if base.is_py and base.py is None:
+            raise NoneBase('attribute %s of None in a spec expression' % node.attr)
         if not base.is_py and base.ty.kind == 'opt' and base.ty.args[0].kind == 'obj':
             base = SV(base.term, base.ty.args[0])
         if not base.is_py and base.ty.kind == 'obj':
@@ -172,10 +178,16 @@ class Verifier(ExprMixin, CallMixin, BuiltinMixin, StmtMixin, Executor):
         raise OutOfReach('spec unary')
 
     def sev_BoolOp(self, node, st):
-        cs = [self.truth(st, self.sev(v, st)) for v in node.values]
-        if any(c is None for c in cs):
-            raise OutOfReach('spec boolop on objects')
-        return self.bool_sv(self.and_(cs) if isinstance(node.op, ast.And) else self.or_(cs))
+        cs = []
+        isand = isinstance(node.op, ast.And)
+        for v in node.values:
+            c = self.truth(st, self.sev(v, st))
+            if c is None:
+                raise OutOfReach('spec boolop on objects')
+            cs.append(c)
+            if c is (not isand):        # concrete short circuit: later operands may be undefined (e.g. None.attr)
+                break
+        return self.bool_sv(self.and_(cs) if isand else self.or_(cs))
 
     def sev_IfExp(self, node, st):
         c = self.truth(st, self.sev(node.test, st))
@@ -224,6 +236,8 @@ class Verifier(ExprMixin, CallMixin, BuiltinMixin, StmtMixin, Executor):
             return self.sev_quant(name, node.args[0], st)
         if name == 'implies':
             a = self.truth(st, self.sev(node.args[0], st))
+            if a is False:
+                return mk(True)
             b = self.truth(st, self.sev(node.args[1], st))
             return self.bool_sv(self.or_([self.not_(a), b]))
         if name == 'len':
@@ -496,9 +510,25 @@ class Verifier(ExprMixin, CallMixin, BuiltinMixin, StmtMixin, Executor):
             m = m.strip()
             if m == 'fresh':
                 continue
+            try:
+                self._mod_location(m, pre, env, out, add)
+            except NoneBase:
+                continue
+        return out
+
+    def _mod_location(self, m, pre, env, out, add):
+        if ' ? ' in m:
+            # '<condition> ? <location>': dropped when the condition is concretely false in the pre-state
+            # (a symbolic condition keeps the location: permissive, stated in DESIGN.md)
+            cnd, m = m.split(' ? ', 1)
+            c = self.truth(pre, self.spec_eval(cnd, pre, env))
+            if c is False:
+                return
+            m = m.strip()
+        if True:
             if m.startswith('global '):
                 out['g.' + m[7:].strip()] = 'all'
-                continue
+                return
             if m.endswith('.*'):
                 # every schema field of the object
                 obj = self.spec_eval(m[:-2], pre, env)
@@ -507,30 +537,29 @@ class Verifier(ExprMixin, CallMixin, BuiltinMixin, StmtMixin, Executor):
                     attr = k.split('.')[-1]
                     if self.world.field_type(cname, attr) is not None:
                         add(self.world.field_key(cname, attr), obj.term)
-                continue
+                return
             if m.endswith('[]'):
                 lst = self.spec_eval(m[:-2], pre, env)
                 lt = lst.ty.args[0] if lst.ty.kind == 'opt' else lst.ty
                 add('La.' + self.seq_code(lt), lst.term)
                 add('Ll', lst.term)
-                continue
+                return
             if m.endswith('{}'):
                 d = self.spec_eval(m[:-2], pre, env)
                 dt = d.ty.args[0] if d.ty.kind == 'opt' else d.ty
                 add('Dd', d.term)
                 add('Dv.' + code_of(dt.args[0]), d.term)
-                continue
+                return
             if m.startswith('field '):
                 # 'field name of *' : the whole field array may change (used sparingly)
                 out['f.' + m[6:].strip()] = 'all'
-                continue
+                return
             node = ast.parse(m, mode='eval').body
             if not isinstance(node, ast.Attribute):
                 raise OutOfReach('modifies clause %r' % m)
             obj = self.spec_eval(ast.unparse(node.value), pre, env)
             ot = obj.ty.args[0] if obj.ty.kind == 'opt' else obj.ty
             add(self.world.field_key(ot.args[0], node.attr), obj.term)
-        return out
 
     def emit_frame_vcs(self, c, st, pre, spec_env, pi, tag, mods=None):
         mods = c.modifies if mods is None else mods
@@ -558,8 +587,19 @@ class Verifier(ExprMixin, CallMixin, BuiltinMixin, StmtMixin, Executor):
                 continue
             a = fresh('a', IntS)
             cond = z3.And(a > 0, a < next0, *[a != x for x in allowed])
+            goal = new[a] == old[a]
+            if key.startswith('La.'):
+                # semantic frame: the items within the (old) length; cells beyond the length are unobservable
+                kk = fresh('k', IntS)
+                goal = z3.ForAll([kk], z3.Implies(z3.And(0 <= kk, kk < self.H(pre, 'Ll')[a]), new[a][kk] == old[a][kk]))
+            elif key.startswith('Dv.'):
+                ks = fresh('key', StrS)
+                goal = z3.ForAll([ks], z3.Implies(self.H(pre, 'Dd')[a][ks], new[a][ks] == old[a][ks]))
+            elif key == 'Dd':
+                ks = fresh('key', StrS)
+                goal = z3.ForAll([ks], new[a][ks] == old[a][ks])
             self.vcs.append(VC('%s#modifies.%s@path%d.%s' % (c.key, key, pi, tag), list(st.pc) + [cond],
-                               new[a] == old[a], 'frame',
+                               goal, 'frame',
                                {'clause': 'only %s of %s may change' % (', '.join(str(x) for x in allowed) or 'nothing', key),
                                 'path': pi}))
 
